@@ -402,6 +402,18 @@ static void fi_gen(Rng &rng, Plan &plan, bool thorough)
 	plan.setp("read_seed", (int64_t)(rng.next() >> 2));
 	plan.setp("memlimit", rng.chance(200) ? 1 : -1);
 	plan.setp("decode_blocks", (int64_t)rng.below(6));
+	if (rng.chance(350)) {
+		plan.setp("synth_file", 1);
+		int ns = (int)rng.range(2, 5);
+		plan.setp("synth_streams", ns);
+		for (int k = 0; k < ns; ++k) {
+			int64_t size = rng.chance(600) ? 8192 * (int64_t)rng.range(1, 3) + 4 * ((int64_t)rng.below(24) - 8) : 100 + 4 * (int64_t)rng.below(6000);
+			plan.setp(fmt("synth_size%d", k), size);
+			plan.setp(fmt("synth_recs%d", k), rng.range(1, 12));
+			plan.setp(fmt("synth_check%d", k), (int64_t)rng.below(4));
+			plan.setp(fmt("synth_pad%d", k), rng.chance(600) ? 0 : 4 * (int64_t)rng.below(12));
+		}
+	}
 }
 
 static void fi_exec(const Plan &plan, Verdict &v)
@@ -409,11 +421,55 @@ static void fi_exec(const Plan &plan, Verdict &v)
 	Bytes file, plain;
 	XzInfo info;
 	std::string err;
-	if (!build_artefact(plan, file, plain, info, err)) { v.fail("harness", "harness/artefact", err); return; }
+	IndexModel m; m.streams.clear();
+	bool synth = plan.p("synth_file", 0) != 0;
+	if (synth) {
+		// Streams of exactly chosen sizes (the file-info decoder reads Stream Headers, Footers and
+		// Indexes only; the Blocks are filler): Stream boundaries at every small offset from the
+		// 8 KiB windows the decoder reads backwards from the end of the file
+		int ns = (int)plan.p("synth_streams", 2);
+		Rng r((uint64_t)plan.p("read_seed") ^ 0x1234);
+		for (int k = 0; k < ns; ++k) {
+			uint64_t target = (uint64_t)plan.p(fmt("synth_size%d", k), 1000) & ~3ull;
+			int nrec = (int)plan.p(fmt("synth_recs%d", k), 2);
+			static const int checks[] = { LZMA_CHECK_NONE, LZMA_CHECK_CRC32, LZMA_CHECK_CRC64, LZMA_CHECK_SHA256 };
+			int check = checks[plan.p(fmt("synth_check%d", k), 1) % 4];
+			MStream ms; ms.has_flags = true; ms.check = check;
+			lzma_index *i = lzma_index_init(nullptr);
+			for (int q = 0; q + 1 < nrec; ++q) { uint64_t u = 8 + 4 * r.below(100), un = r.below(100000); ms.recs.push_back({ u, un }); lzma_index_append(i, nullptr, u, un); }
+			// the last Record takes what is left
+			uint64_t last = 8, un_last = r.below(1000000);
+			for (int it = 0; it < 6; ++it) {
+				lzma_index *d = lzma_index_dup(i, nullptr);
+				lzma_index_append(d, nullptr, last, un_last);
+				uint64_t size = 2 * LZMA_STREAM_HEADER_SIZE + lzma_index_total_size(d) + lzma_index_size(d);
+				lzma_index_end(d, nullptr);
+				if (size == target) break;
+				int64_t nl = (int64_t)last + (int64_t)target - (int64_t)size;
+				last = nl < 8 ? 8 : (uint64_t)nl;
+			}
+			ms.recs.push_back({ last, un_last });
+			lzma_index_append(i, nullptr, last, un_last);
+			lzma_stream_flags sf; memset(&sf, 0, sizeof sf); sf.version = 0; sf.check = (lzma_check)check; sf.backward_size = lzma_index_size(i);
+			uint8_t hdr[LZMA_STREAM_HEADER_SIZE];
+			lzma_stream_header_encode(&sf, hdr);
+			file.insert(file.end(), hdr, hdr + sizeof hdr);
+			file.insert(file.end(), (size_t)lzma_index_total_size(i), 0xA7);
+			size_t at = file.size(), pos = 0;
+			file.resize(at + (size_t)lzma_index_size(i));
+			lzma_index_buffer_encode(i, file.data() + at, &pos, (size_t)lzma_index_size(i));
+			lzma_stream_footer_encode(&sf, hdr);
+			file.insert(file.end(), hdr, hdr + sizeof hdr);
+			lzma_index_end(i, nullptr);
+			ms.padding = (uint64_t)plan.p(fmt("synth_pad%d", k), 0) & ~3ull;
+			file.insert(file.end(), (size_t)ms.padding, 0);
+			m.streams.push_back(ms);
+		}
+		v.count("reach.file_info_streams_of_chosen_sizes");
+	} else if (!build_artefact(plan, file, plain, info, err)) { v.fail("harness", "harness/artefact", err); return; }
 	v.count("runs.total");
 	// the model: what the file really contains, from the writer's field map
-	IndexModel m; m.streams.clear();
-	{
+	if (!synth) {
 		MStream cur; bool open = false;
 		uint64_t hdr = 0, payload = 0;
 		int stream_no = -1;
@@ -486,7 +542,7 @@ static void fi_exec(const Plan &plan, Verdict &v)
 	// random access: decoding a Block at the offsets the index gives yields
 	// exactly the bytes of that range
 	if (v.ok) {
-		int nb = (int)plan.p("decode_blocks", 2);
+		int nb = synth ? 0 : (int)plan.p("decode_blocks", 2);
 		Rng r3((uint64_t)plan.p("read_seed") ^ 0x55);
 		for (int k = 0; k < nb && v.ok && lzma_index_uncompressed_size(idx) > 0; ++k) {
 			uint64_t target = r3.below(lzma_index_uncompressed_size(idx));
